@@ -208,7 +208,7 @@ def check(model: Model, run: Run) -> None:
         'a value the wire format cannot hold is never wrapped: every integer a text parser packs goes through struct.pack / '
         'bytes([x]), which raise on overflow (inventory with the upper bound derived from the dominating range guards; an '
         'unguarded pack is refused by exception and is listed in the evidence, not reported)',
-        floor=25,
+        floor=18,
     )
     n_pack = 0
     unbounded: list[str] = []
